@@ -59,7 +59,7 @@ def resolve_modifies(ctx, contract, values):
   return allowed
 
 
-def run_path(unit, src, cs, fdef, prefix):
+def run_path(unit, src, cs, fdef, prefix, define=False):
   contract = unit.contract
   sp = unit.modspec
   ctx = Ctx(unit, prefix)
@@ -70,7 +70,10 @@ def run_path(unit, src, cs, fdef, prefix):
   params = [a.arg for a in fdef.args.args]
   is_static = cs is not None and fdef.name in cs.static
   if cs is not None and not is_static and params and params[0] == 'self':
-    self_obj = ctx.new_object(cs.name, 'self', symbolic=True)
+    # a constructor starts from an object without instance fields (class
+    # level defaults apply); every other method from an arbitrary object
+    self_obj = ctx.new_object(cs.name, 'self',
+                              symbolic=(fdef.name != '__init__'))
     values['self'] = self_obj
     params = params[1:]
   for p in params:
@@ -87,9 +90,44 @@ def run_path(unit, src, cs, fdef, prefix):
     ctx.assume(fn(ctx))
   if contract.setup is not None:
     contract.setup(ctx, env, values)
+  if define:
+    contract.define_fresh(ctx, values)
+    ctx.no_oblige = True
   pre_ns = NS(ctx, dict(values), heap=None)
   for cl in contract.requires:
     ctx.assume(cl.fn(pre_ns))
+  if not define and contract.define_fresh is not None:
+    # Definition of the spec function F_h: ghost-execute the body from the
+    # FRESH state (same x, y, parameters, all caches empty) inside this path
+    # and record  F_h(x, y, par) == <value it returns>.  The decisions of the
+    # ghost run become part of the path (case analysis over library
+    # predicates); the heap is restored afterwards.
+    snap = {oid: dict(rec.fields) for oid, rec in ctx.objects.items()}
+    n_obj = set(ctx.objects)
+    contract.define_fresh(ctx, values)
+    ctx.no_oblige = True
+    genv = Env(src, cs, qualname=contract.fn_qualname)
+    genv.vars.update(values)
+    fresh_res = None
+    try:
+      try:
+        ex.exec_block(frontend.strip_docstring(fdef.body), genv)
+        fresh_res = NONE
+      except ReturnSig as r:
+        fresh_res = r.value
+      except RaiseSig:
+        fresh_res = None
+    finally:
+      ctx.no_oblige = False
+    for oid, fields in snap.items():
+      ctx.objects[oid].fields.clear()
+      ctx.objects[oid].fields.update(fields)
+    ctx.memo = {}
+    if fresh_res is not None:
+      if contract.result is not None:
+        fresh_res = symexec.conform(ctx, fresh_res, contract.result)
+      fv = unwrap(contract.returns(pre_ns))
+      ctx.assume(eq_term(fv, fresh_res))
   if not ctx.feasible(z3.BoolVal(True)):
     unit.vacuous = True
   ctx.old_heap = ctx.snapshot_heap()
@@ -111,7 +149,13 @@ def run_path(unit, src, cs, fdef, prefix):
       outcome = ('return', r.value)
     except RaiseSig as r:
       outcome = ('raise', r.exc)
-    if outcome[0] == 'return':
+    if define:
+      if outcome[0] == 'return':
+        res = outcome[1]
+        if contract.result is not None:
+          res = symexec.conform(ctx, res, contract.result)
+        unit.fresh_paths.append((list(ctx.pc), res))
+    elif outcome[0] == 'return':
       check_return(ctx, contract, values, outcome[1], entry_marks, fdef, env)
     else:
       check_raise(ctx, contract, values, outcome[1], fdef)
@@ -137,6 +181,11 @@ def check_return(ctx, contract, values, result, entry_marks, fdef, env):
   if env.gen is not None:
     vals['n_yields'] = VInt(env.gen.count)
   ns = NS(ctx, vals, heap=None, old=ctx.entry_old_ns)
+  if contract.returns is not None:
+    want = unwrap(contract.returns(ctx.entry_old_ns))
+    ctx.oblige(eq_term(result, want),
+               'returns the value a freshly built object reports', 'post',
+               contract.props)
   for cl in contract.ensures:
     g = cl.fn(ns)
     ctx.oblige(g, cl.label, 'post', cl.props)
@@ -220,6 +269,8 @@ def _par_path(prefix):
   unit.vacuous = False
   unit.modname = modname
   unit.sha256 = src.sha256
+  unit.fresh_paths = _PAR.get('fresh_paths', []) if (
+      contract.define_fresh is not None) else []
   try:
     ctx = run_path(unit, src, cs, fdef, prefix)
   except EngineError as e:
@@ -239,6 +290,7 @@ def verify_function(modname, qualname):
   unit.modname = modname
   unit.sha256 = src.sha256
   t0 = time.time()
+  unit.fresh_paths = []
   workers = int(os.environ.get('MMVERIF_PATH_WORKERS', '0') or 0) or min(
       16, os.cpu_count() or 4)
   # first path in-process (most functions have a handful of paths)
